@@ -98,7 +98,7 @@ def gen(rng, i, tier):
         tails = [(o[6], o[2]) for o in items if len(o) == 8]
         if len(set(tails)) != len(tails):
             items = [o for o in items if len(o) != 8]
-        return {"k": "hand", "groups": [[o] for o in items], "pol": rng.choice([1, 2, 3]), "shape": rng.choice([0, 0, 2])}
+        return {"k": "hand", "groups": [[o] for o in items], "pol": rng.choice([1, 2, 3]), "shape": rng.choice([0, 0, 1, 2])}
     if rng.random() < 0.3:
         return wellformed(rng)
     c = c09.gen(rng, 10 ** 9, tier)
@@ -134,12 +134,16 @@ def impl(c):
     try:
         if c["k"] == "hand":
             groups = [[mk_item(o) for o in g] for g in c["groups"]]
+            if c.get("shape", 0) == 1:
+                groups = [tuple(g) for g in groups]       # a group is any sequence of notes: a tuple as well as a list
             if c.get("shape", 0) >= 2:
                 groups = iter(groups)          # ungroup_notes takes any iterable of groups
         else:
             ns = [G.mk_note(o) for o in stream(c)]
             groups = group_notes(c09.shaped(c, ns), include_note_types=frozenset(NoteType(t) for t in c["types"]), same_beat_notes=SameBeatNotes(c["mode"]),
                                  join_heads_to_tails=c["join"], orphaned_head=OrphanedNotes(c["ph"]), orphaned_tail=OrphanedNotes(c["pt"]))
+        if c["k"] != "hand" and c.get("shape", 0) == 1:
+            groups = (tuple(g) for g in groups)               # the groups re-spelled as tuples, handed over lazily
         return ["ok", [G.note_obs(n) for n in ungroup_notes(groups, orphaned_notes=pol)]]
     except OrphanedNoteException as e:
         return ["orphan", G.note_obs(e.args[0])]
